@@ -419,6 +419,16 @@ def c08(tier, replay):
     totals = validate(run, "C08", "sessions", logs, scripts=sessions, binary=binary)
     if totals.get("terminal_gos", 0) < 5:
         raise ToolError("coverage hole: fewer than 5 go commands in finished games")
+    # quiet stretches (as in C09): the search is over at once (forced replies, mate positions), nothing arrives on the channel for
+    # hundreds of milliseconds, the answer is due at the deadline all the same - bound plan + 80 ms, reproduced 3 of 3 times
+    quiet = []
+    for i, p_ in enumerate((FORCED + [x for x in live])[:8 if q else 40]):
+        w = [750, 1075, 1400, 900][i % 4]
+        quiet.append([{"do": "send", "line": p_}, {"do": "go", "line": "go wtime %d btime %d movestogo 1" % (w, w)}, {"do": "isready"}])
+    plan(h, quiet)
+    qlogs = run_sessions(binary, quiet, 4)
+    qt = validate(run, "C08", "quiet", qlogs, overhead=80, scripts=quiet, binary=binary)
+    run.cov["go_after_a_quiet_stretch_bound_80ms"] = qt.get("gos", 0)
     # with the engine's own logging switched on (setoption DebugLogLevel Info): the lines formatted for the log are evaluated
     # only then (a log argument that cannot be computed kills the I/O thread); zero, small and odd clocks, finished games
     scratch = R.trace_dir("C08-logcwd")
